@@ -5,6 +5,8 @@
 //! ty 3 String: bytes as base-256 digits after a leading 1; ty 4 GenericArray<u8,U2>: 256x+y;
 //! ty 5 Kv {k, v}: 256k+v -- == compares both fields, the ordering only the key;
 //! ty 6 i8: the value (a ONE-BYTE type whose order is not the order of its bytes).
+//! ty 8 To(i32): the value; `Ord::cmp` is TOTAL (by value) while `partial_cmp` treats the value 77 like a NaN
+//! (unordered with everything, itself included): an array `cmp` routed through `partial_cmp` shows.
 //! ty 7 Wb(u8): the value; one byte, no padding, no drop glue -- and a hand-written Hash that is NOT "my own
 //! bytes" (write_u8(x); write_u8(0xAA)): hashing the array's memory instead of its elements shows.
 //!
@@ -222,6 +224,37 @@ impl Elem for Wb {
     }
     fn same(&self, o: &Self) -> bool {
         self == o
+    }
+}
+/// total `Ord`, partial `PartialOrd` / `PartialEq` (the pattern of a float wrapper ordered by total_cmp)
+#[derive(Clone, Copy, Debug, Hash)]
+struct To(i32);
+impl PartialEq for To {
+    fn eq(&self, o: &To) -> bool {
+        self.0 == o.0
+    }
+}
+impl Eq for To {}
+impl PartialOrd for To {
+    fn partial_cmp(&self, o: &To) -> Option<Ordering> {
+        if self.0 == 77 || o.0 == 77 {
+            None
+        } else {
+            Some(self.0.cmp(&o.0))
+        }
+    }
+}
+impl Ord for To {
+    fn cmp(&self, o: &To) -> Ordering {
+        self.0.cmp(&o.0)
+    }
+}
+impl Elem for To {
+    fn dec(c: i128) -> Self {
+        To(c as i32)
+    }
+    fn same(&self, o: &Self) -> bool {
+        self.0 == o.0
     }
 }
 type Nest = GenericArray<u8, U2>;
@@ -525,6 +558,7 @@ fn run_case(case: &[i128]) -> (Vec<i128>, Vec<String>) {
             5 => pair_all::<Kv>(a, b, &mut out, &mut orc),
             6 => pair_all::<i8>(a, b, &mut out, &mut orc),
             7 => pair_all::<Wb>(a, b, &mut out, &mut orc),
+            8 => pair_all::<To>(a, b, &mut out, &mut orc),
             _ => panic!("bad type {}", ty),
         }
     } else {
@@ -547,6 +581,7 @@ fn run_case(case: &[i128]) -> (Vec<i128>, Vec<String>) {
             5 => single_all::<Kv>(a, &mut out, &mut orc),
             6 => single_all::<i8>(a, &mut out, &mut orc),
             7 => single_all::<Wb>(a, &mut out, &mut orc),
+            8 => single_all::<To>(a, &mut out, &mut orc),
             _ => panic!("bad type {}", ty),
         }
     }
@@ -579,6 +614,7 @@ fn leaves_of(ty: i128, code: i128) -> Vec<(i128, [String; NF])> {
         4 => <Nest as Elem>::leaves(code),
         6 => <i8 as Elem>::leaves(code),
         7 => <Wb as Elem>::leaves(code),
+        8 => <To as Elem>::leaves(code),
         _ => <Kv as Elem>::leaves(code),
     }
 }
@@ -623,6 +659,7 @@ fn alphabet(ty: i128) -> Vec<i128> {
         // i8: mixed signs (as bytes: 0xFF 0x00 0x01 0x80 0x7F)
         6 => vec![-1, 0, 1, -128, 127],
         7 => vec![0, 7, 255, 170, 1],
+        8 => vec![0, 77, 5, -3, 9],
         // Kv: {0,0} {0,1} {1,0} {1,5} {7,0}: same key with different values, different keys
         _ => vec![0, 1, 256, 256 + 5, 7 * 256],
     }
@@ -653,7 +690,7 @@ fn main() {
         return;
     }
     let thorough = a.tier == "thorough";
-    for ty in 0..8i128 {
+    for ty in 0..9i128 {
         let alpha = alphabet(ty);
         // exhaustive pairs: (length, letters)
         let mut scopes: Vec<(usize, usize)> = vec![];
@@ -691,7 +728,7 @@ fn main() {
     // seeded larger lengths
     let mut rng = Rng::new(a.seed);
     let (npairs, nsingles) = if thorough { (2000, 200) } else { (60, 16) };
-    for ty in 0..8i128 {
+    for ty in 0..9i128 {
         let alpha = alphabet(ty);
         for n in [5usize, 8, 15, 16, 17, 31, 32, 33, 64, 65] {
             for _ in 0..npairs {
